@@ -711,6 +711,7 @@ func runC09(c *Ctx) {
 	r.Doc("M2", "interruptInterval == 0 -> the loop function without ticker", 3)
 	r.Doc("T2", "emit -> passAt reset before returning to the loop", 4)
 	r.Doc("T4", "timeout predicate: time.Since(passAt) >= Timeout", 3)
+	r.Doc("T1", "passAt is set by the constructor (the first timeout counts from creation) and otherwise only by flush/forward", 3)
 	r.Doc("J6", "(greedy batching) after an ingest: flush or leave under len(B) < JoinSize", 3)
 	r.Doc("J7", "(greedy batching, unite) fit facts", 1)
 	for _, jr := range joinDiscs(c) {
@@ -718,6 +719,7 @@ func runC09(c *Ctx) {
 		checkM2(c, jr)
 		checkT2(c, jr)
 		checkT4(c, jr)
+		checkT1(c, jr)
 		checkJ6(c, jr)
 		checkJ7(c, jr)
 	}
@@ -797,6 +799,29 @@ func checkT1(c *Ctx, jr *joinRoles) {
 	}
 	if writers == 0 {
 		problems = append(problems, "UNRESOLVED-ANCHOR: no write of passAt found")
+	}
+	// the constructor starts the clock before the goroutine runs
+	for _, ctor := range jr.d.Ctors {
+		started := false
+		for _, b := range ctor.Blocks {
+			for _, in := range b.Instrs {
+				if _, isGo := in.(*ssa.Go); isGo {
+					goto done
+				}
+				if _, ok := fieldStore(in, "passAt"); ok {
+					started = true
+				}
+				if call, ok := in.(*ssa.Call); ok {
+					if cal := p.Callee(call); cal != nil && p.IsProduct(cal) && p.mayWriteField(cal, "passAt") {
+						started = true
+					}
+				}
+			}
+		}
+	done:
+		if !started {
+			problems = append(problems, "the constructor does not set passAt before starting the goroutine: the timeout is measured from the zero time, so the first incomplete slice is flushed immediately instead of Timeout after creation")
+		}
 	}
 	c.R.Check(len(problems) == 0, "T1", jr.key, p.Pos(jr.accept.Pos()), fmt.Sprintf("%d writer(s) of passAt, reachable only from the constructor and flush/forward", writers), strings.Join(dedup(problems), "; "))
 }
